@@ -54,7 +54,7 @@ func (k Keeper) AddRequest(ctx sdk.Context, req types.Request) types.RequestID {
 func (k Keeper) ProcessExpiredRequests(ctx sdk.Context) {
 	currentReqID := k.GetRequestLastExpired(ctx) + 1
 	lastReqID := types.RequestID(k.GetRequestCount(ctx))
-	expirationBlockCount := int64(k.GetParams(ctx).ExpirationBlockCount)
+	expirationBlockCount := k.GetParams(ctx).ExpirationBlockCount
 	// Loop through all data requests in chronological order. If a request reaches its
 	// expiration height, we will deactivate validators that didn't report data on the
 	// request. We also resolve requests to status EXPIRED if they are not yet resolved.
@@ -63,7 +63,8 @@ func (k Keeper) ProcessExpiredRequests(ctx sdk.Context) {
 
 		// This request is not yet expired, so there's nothing to do here. Ditto for
 		// all other requests that come after this. Thus we can just break the loop.
-		if req.RequestHeight+expirationBlockCount > ctx.BlockHeight() {
+		// (compared as the number of blocks elapsed, so that a large expiration block count cannot wrap around)
+		if elapsed := ctx.BlockHeight() - req.RequestHeight; elapsed < 0 || uint64(elapsed) < expirationBlockCount {
 			break
 		}
 
